@@ -319,6 +319,8 @@ THEOREMS = [
     'C07.poscar_symbols_match_counts',
     # data file: explicit units= / atom_style= / natypes= win over a potential's, which win over the defaults
     'C07.requested_args_used', 'C07.requested_units_in_snippet',
+    # per-atom tensors: names are row-major, the column called p[i][j] holds component (i, j)
+    'C07.index_names_row_major', 'C07.index_names_rank2', 'C07.tensor_cells',
 ]
 PARTIAL = {
     'inside the written bounds / lo < hi AFTER rounding':
@@ -647,6 +649,8 @@ def build_system(d):
     kw = {}
     if d.get('symbols') is not None:
         kw['symbols'] = d['symbols']
+    if d.get('masses') is not None:
+        kw['masses'] = list(d['masses'])      # per-type masses a system loaded from a data file / built for a potential has
     s = am.System(atoms=atoms, box=box, pbc=list(d['pbc']), **kw)
     if not (np.array_equal(s.box.vects, np.array(d['vects'], dtype=float))
             and np.array_equal(s.atoms.pos, np.array(d['pos'], dtype=float))):
@@ -782,6 +786,8 @@ def gen_desc(rng, regime, props=(), lammps=True, nmax=10, many_types=0.06):
         for x in shape:
             ncomp *= x
         d['props'][name] = (bool(is_int), shape, [[gen_value(rng, regime, is_int) for _ in range(ncomp)] for _ in range(n)])
+    if rng.random() < 0.15:
+        d['masses'] = [rng.choice([1.008, 26.9815385, 63.546, 183.84]) * rng.choice([1.0, 1.5]) for _ in range(natypes)]
     if 'm_id' in d['props'] and rng.random() < 0.1:
         # molecule ids beyond 32 bits (LAMMPS "bigbig" tagint)
         big = rng.choice([2 ** 31, 2 ** 32 + 5, 2 ** 40])
@@ -1278,14 +1284,24 @@ def near_discontinuity(d, margin=Fraction(1, 10 ** 8)):
     return False
 
 
+def exp10(v):
+    """floor(log10(v)) of a positive rational, exactly (denormals and 1e300 included)."""
+    v = Fraction(v)
+    e = len(str(v.numerator)) - len(str(v.denominator))
+    while Fraction(10) ** e > v:
+        e -= 1
+    while Fraction(10) ** (e + 1) <= v:
+        e += 1
+    return e
+
+
 def quantum_of(ff, v):
     fam, n = fmt_family(ff)
     if fam == 'f':
         return Fraction(1, 10 ** n)
     if v == 0:
         return Fraction(0)
-    e = math.floor(math.log10(abs(float(v)))) if abs(v) > Fraction(1, 10 ** 300) else -300
-    return Fraction(10) ** (e - n) * 2
+    return Fraction(10) ** (exp10(abs(v)) - n) * 2
 
 
 class Checker:
@@ -1306,6 +1322,15 @@ class Checker:
         if abs(got - want) > self.tol(want, k):
             self.fail(what, f'{what}: file says {float(got)!r}, the system has {float(want)!r} '
                             f'(allowed difference {float(self.tol(want, k)):.3g})')
+
+    def own(self, what, got, want):
+        """a stored value written as it is or divided by a unit: no cancellation against the size of the system, so
+        the printed precision of the number itself (and one division's rounding) is all that may differ — a value of
+        1e-300 or a denormal must not come out as 0 under a %e format."""
+        tol = quantum_of(self.ff, want) + 64 * EPS * abs(want)
+        if abs(got - want) > tol:
+            self.fail(what, f'{what}: file says {float(got)!r}, the system has {float(want)!r} '
+                            f'(allowed difference {float(tol):.3g})')
 
     def fail(self, key, msg):
         if len(self.fails) < 4:
@@ -1539,7 +1564,11 @@ def check_data(d, style, units, ff, natypes, parsed, info=None, fname=None):
                 want = prop_value(d, f[2], f[3], k)
             except KeyError:
                 continue
-            ck.num(f'{f[0]}[{k}]', v, want / fac if fac else want)
+            if f[0] in INT_FIELDS:
+                if v != want:
+                    ck.fail(f[0], f'{f[0]}[{k}]: file says {int(v)}, the system has {int(want)}')
+                continue
+            ck.own(f'{f[0]}[{k}]', v, want / fac if fac else want)
     if sorted(ids) != [Fraction(i) for i in range(1, len(ids) + 1)]:
         ck.fail('ids', f'atom ids are not 1..N: {[int(i) for i in ids][:12]}')
     has_vel = 'velocity' in d['props']
@@ -1561,7 +1590,7 @@ def check_data(d, style, units, ff, natypes, parsed, info=None, fname=None):
                     want = prop_value(d, f[2], f[3], k)
                 except KeyError:
                     continue
-                ck.num(f'{f[0]}[{k}]', v, want / fac if fac else want)
+                ck.own(f'{f[0]}[{k}]', v, want / fac if fac else want)
     if info is not None:
         il = [l.split() for l in info.split('\n')]
         if ['units', units] not in il:
@@ -1663,6 +1692,14 @@ def check_dump(d, units, ff, parsed, timestep=0):
                 if not _INT.match(t):
                     ck.fail('int:' + c, f'column {c} must be an integer, the file has {t!r}')
                     continue
+                if c == 'id':
+                    ids.append(Fraction(int(t)))
+                try:
+                    if Fraction(int(t)) != prop_value(d, prop, comp, k):       # integers are compared exactly
+                        ck.fail(c, f'{c}[{k}]: file says {int(t)}, the system has {int(prop_value(d, prop, comp, k))}')
+                except KeyError:
+                    pass
+                continue
             rv = raw_value(d, prop, comp, k)
             if rv is not None and (rv != rv or rv in (float('inf'), float('-inf'))):
                 if not special_ok(t, rv):
@@ -1680,7 +1717,7 @@ def check_dump(d, units, ff, parsed, timestep=0):
             fac = oracle_factor(units, kind)
             if fac == 'undefined':
                 continue
-            ck.num(f'{c}[{k}]', v, want / fac if fac else want)
+            ck.own(f'{c}[{k}]', v, want / fac if fac else want)
         for suf in ('s', 'su'):
             names3 = [a + suf for a in 'xyz']
             if all(x in cols for x in names3):
@@ -2758,13 +2795,20 @@ def check_table(ctx, c, text, report, rp):
                 if is_int and not _INT.match(t):
                     ck.fail('int', f'integer column {nm[comp]} written as {t!r}')
                     continue
+                if is_int:
+                    if Fraction(int(t)) != want:
+                        ck.fail(nm[comp], f'{nm[comp]}[{k}]: table says {int(t)}, the system has {int(want)}')
+                    continue
                 if want is None:
                     rv = raw_value(d, prop, comp, k)
                     if not special_ok(t, rv):
                         ck.fail('nonfinite', f'{nm[comp]}[{k}]: the system has {rv!r}, the table has {t!r}')
                     continue
                 try:
-                    ck.num(f'{nm[comp]}[{k}]', p_num(t), want, 1 if us != 'scaled' else 4)
+                    if us == 'scaled':
+                        ck.num(f'{nm[comp]}[{k}]', p_num(t), want, 4)
+                    else:
+                        ck.own(f'{nm[comp]}[{k}]', p_num(t), want)
                 except ValueError as e:
                     ck.fail('word', f'{nm[comp]}[{k}]: {e}')
     for key, msg in ck.fails:
